@@ -9,6 +9,10 @@ import sys
 import time
 from fractions import Fraction
 
+# exact rationals of the oracle can have thousands of digits
+if hasattr(sys, 'set_int_max_str_digits'):
+    sys.set_int_max_str_digits(0)
+
 VERIF = os.path.dirname(os.path.dirname(os.path.abspath(__file__)))
 LEAN = os.path.join(VERIF, 'lean')
 HARNESS = os.path.join(VERIF, 'harness')
